@@ -30,6 +30,7 @@ type screenCfg struct {
 	headerLines []string // first N input lines
 	prompt      string
 	noSeparator bool // --no-separator
+	headerOff   bool // the header was hidden (hide-header / toggle-header)
 }
 
 var infoRe = regexp.MustCompile(`(\d+)/(\d+)(?: \((\d+)(?:/\d+)?\))?`)
@@ -236,7 +237,11 @@ func checkScreen(rawRows []string, rawSt *Status, cfg screenCfg) (string, bool) 
 				n++
 			}
 		}
-		if n != 1 {
+		if cfg.headerOff {
+			if n != 0 {
+				return fmt.Sprintf("header line %q is on the screen although the header is hidden", h), false
+			}
+		} else if n != 1 {
 			return fmt.Sprintf("header line %q appears %d times on the screen", h, n), false
 		}
 	}
@@ -564,8 +569,18 @@ func c15Session(t *rapid.T) {
 			continue
 		case "edit":
 			// actions that redraw only a part of the screen other than the list
-			body = rapid.SampledFrom([]string{"backward-char", "forward-char", "beginning-of-line", "end-of-line", "backward-word", "forward-word", "change-prompt", "change-header", "backward-char+down", "beginning-of-line+toggle"}).Draw(t, "edit")
+			body = rapid.SampledFrom([]string{"backward-char", "forward-char", "beginning-of-line", "end-of-line", "backward-word", "forward-word", "change-prompt", "change-header", "backward-char+down", "beginning-of-line+toggle", "header-visibility"}).Draw(t, "edit")
 			switch body {
+			case "header-visibility":
+				body = rapid.SampledFrom([]string{"toggle-header", "toggle-header", "hide-header", "show-header"}).Draw(t, "headerAction")
+				switch body {
+				case "toggle-header":
+					cfg.headerOff = !cfg.headerOff
+				case "hide-header":
+					cfg.headerOff = true
+				case "show-header":
+					cfg.headerOff = false
+				}
 			case "change-prompt":
 				cfg.prompt = rapid.SampledFrom([]string{"Q> ", "P2: ", "> "}).Draw(t, "newPrompt")
 				body = "change-prompt(" + cfg.prompt + ")"
